@@ -88,6 +88,18 @@ def contexts():
     c["init-template"] = dict(mk=lambda e: dict(tdecl="int y = %s;" % e), allowed=[NC, SE % "Initialiser"], ctc=True)
     c["init-local"] = dict(mk=lambda e: dict(gdecl_post="void lf() { int l = %s; l = l + 1; }" % e), allowed=[SE % "Initialiser"], ctc=False)
     c["array-size"] = dict(mk=lambda e: dict(gdecl_post="int z[%s];" % e), allowed=[NC], ctc=True)
+    # every dimension of an array type is a size of its own: the check of the type has to reach the inner dimensions as well, in
+    # every kind of declaration, and the dimensions a typedef name hides (rows of a matrix).  `sampled`: a sample of the write-form
+    # matrix in the quick tier, all of it in the thorough tier
+    for name, place in (("2nd-dimension", "gdecl_post:int z[2][%s];"), ("middle-dimension", "gdecl_post:int z[2][%s][2];"),
+                        ("3rd-dimension", "gdecl_post:int z[2][2][%s];"), ("2nd-dimension-template", "tdecl:int z[2][%s];"),
+                        ("2nd-dimension-function-local", "gdecl_post:void lf() { int z[2][%s]; z[0][0] = 1; }"),
+                        ("2nd-dimension-function-parameter", "gdecl_post:void pf(int q[2][%s]) { }"),
+                        ("2nd-dimension-struct-field", "gdecl_post:struct { int f[2][%s]; } sv;"),
+                        ("row-typedef", "gdecl_post:typedef int row_t[%s]; row_t z[2];"),
+                        ("behind-row-typedef", "gdecl_post:typedef int row_t[2]; row_t z[2][%s];")):
+        mk = (lambda key, txt: (lambda e: {key: txt % e}))(*place.split(":", 1))
+        c["array-size-" + name] = dict(mk=mk, allowed=[NC], ctc=True, sampled=True)
     c["range-bound"] = dict(mk=lambda e: dict(gdecl_post="int[0, %s] z;" % e), allowed=[NC], ctc=True)
     c["typedef-range-bound"] = dict(mk=lambda e: dict(gdecl_post="typedef int[0, %s] T; T z;" % e), allowed=[NC], ctc=True)
     c["inst-arg"] = dict(mk=lambda e: dict(params="const int n", system="Q = P(%s);\nsystem Q;" % e),
@@ -388,6 +400,7 @@ def diff_model(rec, drv):
 # proof step shared by C11 / C13
 
 MY_LEAN_FILES = ("UtapModel/Model/EffectCfg.lean", "UtapModel/Model/Effect.lean", "UtapModel/Model/EffectSpec.lean",
+                 "UtapModel/Model/TypeWalk.lean", "UtapModel/Lemmas/TypeWalk.lean",
                  "UtapModel/Gen/EffectGen.lean", "UtapModel/Gen/Kinds.lean", "UtapModel/Lemmas/Effect.lean",
                  "UtapModel/Props/C11.lean", "UtapModel/Props/C13.lean", "UtapModel/Drv/C11Lib.lean",
                  "UtapModel/Drv/C11.lean", "UtapModel/Drv/C13.lean")
